@@ -39,7 +39,7 @@ def cases_fn(nonclone=True):
             pg = tgen.PatGen(g, rng, root_is_ref=True)
             pat = pg.pat(v0, t, depth=1)
             v = v0 if rng.random() < 0.6 else g.perturb(v0, t, 0.5)
-            extra = "(v %s (int 0)) (v %s (str %s)) (m %s %s)" % (tgen.hexs("0"), tgen.hexs('"k"'), tgen.hexs("k"), tgen.hexs("get"), tgen.hexs("field:f"))
+            extra = "(v %s (int 0)) (v %s (str %s)) %s" % (tgen.hexs("0"), tgen.hexs('"k"'), tgen.hexs("k"), P.METHOD_MEANINGS)
             for pos in P.POSITIONS:
                 c = t3.Case()
                 c.id = k
@@ -69,6 +69,31 @@ def cases_fn(nonclone=True):
                     c.setup = ROOT_SETUP
                     c.post = ROOT_POST % c.id
                     cases.append(c)
+            if b < 14:
+                # The asserted expression reaches the macro THROUGH THE CALLER'S OWN MACROS: a `macro_rules!` helper that forwards an `expr`
+                # fragment (the macro then sees an invisible group around it), an expression macro that expands to a place. The pattern is
+                # written in the helper's definition (the shape that compiles, see DESIGN 9); the generated one and a closure that
+                # accepts any value.
+                anyc = "|x| format!(\"{:?}\", x).len() < 1000000"
+                for pname, ptxt in (("generated", pat), ("closure", anyc)):
+                    for fname, call, asserted in (("forwarded-variable", "fwd!(v)", "v"), ("forwarded-field", "fwd!(h.inner)", "h.inner"), ("forwarded-index", "fwd!(xs[0])", "xs[0]"),
+                                                  ("forwarded-deref", "fwd!(*b)", "*b"), ("place-macro", None, "place!(v)"), ("place-macro-field", None, "place!(h.inner)")):
+                        c = t3.Case()
+                        c.id = k
+                        k += 1
+                        c.base, c.position, c.gen, c.ty, c.value = b, "root:%s:%s" % (fname, pname), g, t, v
+                        c.inner_pattern = ptxt
+                        c.form = tgen.top_form(ptxt)
+                        c.forms = dict(pg.forms_used)
+                        c.meanings = pg.meanings_sexp()[:-1] + " " + extra + ")"
+                        helper = "macro_rules! fwd { ($value:expr) => { assert_struct!($value, %s) } }\nmacro_rules! place { ($e:expr) => { $e } }\n" % ptxt.replace("\n", " ")
+                        t3.finish_case(c, g.decls() + "\n" + ROOT_DECLS + helper, g.rust_type(t), g.rust_expr(v, t), tgen.sexp(v), ptxt)
+                        c.text = asserted + ", " + ptxt
+                        if call:
+                            c.custom_invocation = call
+                        c.setup = ROOT_SETUP
+                        c.post = ROOT_POST % c.id
+                        cases.append(c)
         return cases
     return make
 
@@ -97,7 +122,7 @@ def run(ck):
     ck.corr_record("T3 value reuse (generated programs use the asserted value after the assertion; rustc's move checker and a before/after Debug comparison decide)",
                    len(cases), len(nontriv), 0, dist,
                    samples=[dict(position=c.position, invocation="assert_struct!(%s)" % c.text, value=c.value_text, outcome=c.got[0]) for c in cases[:3]],
-                   rule="seeded non-Copy (type, value, pattern) bases x the 19 positions, and x 13 ways of writing the asserted expression at the root (method call, field, index, deref, borrow, call, block, ...) with every owner used afterwards; distinct = distinct (invocation, value); non-trivial = the inner pattern is not `_`")
+                   rule="seeded non-Copy (type, value, pattern) bases x the 19 positions, and x 13 ways of writing the asserted expression at the root (method call, field, index, deref, borrow, call, block, ...; forwarded through a caller's `macro_rules!` helper as an `expr` fragment, produced by an expression macro) with every owner used afterwards; distinct = distinct (invocation, value); non-trivial = the inner pattern is not `_`")
     # C09_root_not_consumed and the consumes judgment are about the generator model: tie it to the real expansion
     res = t2.run(ck)
     mm = t2.record(ck, res, ("body",), "how the value expression is bound and handed on")
